@@ -324,6 +324,14 @@ def r02_7(ctx):
         outs = ai.explore(lambda: ai.call_function(fh, [ClassRef(cls), bad], {}))
         ctx.require(bool(outs) and all(o.kind == 'raise' and o.exc == 'ValueError' for o in outs), 'R02.7', f'from_hex({label})', w,
                     f'{bad!r} gives {outs}; expected ValueError', construct=f'{fh.qname}::malformed-text')
+    # malformed text WITH a separator: items that are not two hex digits must not be glued together across the separator
+    for bad, sep, label in (('F-8', '-', 'single digits around the separator'), ('9-03-C4-0', '-', 'digits split wrongly, four items'),
+                            ('90-3C-4-0', '-', 'two single digits at the end'), ('F0 | 0 | 1F | 7', ' | ', 'single digits, long separator'),
+                            ('9:0', ':', 'one digit each side')):
+        n += 1
+        outs = ai.explore(lambda: ai.call_function(fh, [ClassRef(cls), bad], {'sep': sep}))
+        ctx.require(bool(outs) and all(o.kind == 'raise' and o.exc == 'ValueError' for o in outs), 'R02.7', f'from_hex({label}, sep={sep!r})', w,
+                    f'{bad!r} with sep={sep!r} gives {outs}; every item must be two hex digits - expected ValueError', construct=f'{fh.qname}::malformed-text-sep')
     ctx.floor('R02.7', n, 100)
     for q in ai.inlined:
         ctx.functions.add(q)
@@ -373,4 +381,12 @@ def r02_8(ctx):
         ctx.functions.add(q)
 
 
-RULES = [('R02.1', r02_1), ('R02.4', r02_4), ('R02.5', r02_5), ('R02.7', r02_7), ('R02.8', r02_8)]
+def r02_encoder(ctx):
+    """bytes() of the message from_bytes returns reproduces the input exactly: the encoder layout is the inverse of the decoder
+    layout, bit for bit (encoder bodies shared with C01 R01.2; the decoder side is R01.3)."""
+    from . import c01
+    ctx.borrow(c01.r01_2, 'R02.9')
+    ctx.borrow(c01.r01_3, 'R02.9')
+
+
+RULES = [('R02.9', r02_encoder), ('R02.1', r02_1), ('R02.4', r02_4), ('R02.5', r02_5), ('R02.7', r02_7), ('R02.8', r02_8)]
